@@ -1,5 +1,6 @@
 (* C05 - a phrase is bound to its coin. *)
-From PS Require Import Base GFDefs GFProofs ApiDefs CoinProofs.
+From PS Require Import Base GFDefs GFProofs ApiDefs SpecDefs SpecApi PackTheorems CoinProofs ApiLemmas RefineProofs ApiTheorems RoundTrip.
+From PS.Gen Require Import Consts Langs.
 Local Open Scope N_scope.
 
 (* c = the 16 coefficients before the coin is applied (they validate); the phrase for coin A
@@ -19,3 +20,27 @@ Theorem C05_second_word_only : forall (c : list N) (A B : N) (i : nat),
   (nth i (xor_coin c A) 0 = nth i (xor_coin c B) 0 <-> i <> 1%nat).
 Proof. exact second_word_only. Qed.
 Print Assumptions C05_second_word_only.
+
+(* at the API: the phrase polyseed_encode returns for coin A, given to polyseed_decode_explicit with
+   any other coin B < 2048, is refused with CHECKSUM - for EVERY seed, language, A <> B *)
+Theorem C05_decode_other_coin : forall sgn cs a h d li L A B ok, R cs a -> heap_get (st_heap cs) h = Some d ->
+  nth_error langs li = Some L -> A < 2048 -> B < 2048 -> A <> B ->
+  NormOK (st_deps cs) L (abs_data d) A -> no_nul (published (st_deps cs) L (abs_data d) A) ->
+  outp (step sgn langs cs (OpDecodeExplicit (published (st_deps cs) L (abs_data d) A) B li ok)) =
+    OutStatus ST_CHECKSUM None None.
+Proof. exact other_coin_checksum. Qed.
+Print Assumptions C05_decode_other_coin.
+
+(* same coin: C01_roundtrip_explicit.  The phrases for two coins differ in the second word only:
+   the index vectors differ at position 1 only (C05_second_word_only) and words are distinct (C07). *)
+Theorem C05_indices : forall s A B i, A <> B ->
+  (nth i (spec_indices s A) 0 = nth i (spec_indices s B) 0 <-> i <> 1%nat).
+Proof.
+  intros s A B i Hne. rewrite !indices_layout. destruct i as [|[|i]]; cbn [nth].
+  - split; [discriminate|reflexivity].
+  - split; [|congruence]. intros E. exfalso. apply Hne.
+    apply (f_equal (N.lxor (nth 0 (spec_data_words s) 0))) in E.
+    rewrite <- !N.lxor_assoc, N.lxor_nilpotent, !N.lxor_0_l in E. exact E.
+  - split; [discriminate|reflexivity].
+Qed.
+Print Assumptions C05_indices.
